@@ -19,6 +19,9 @@ Certs == {"generated", "ecdsa", "rsa", "two", "two-reconfigured"}
 \* such a name with the value the SHA-256 fingerprint would have; "absent": no fingerprint attribute at all
 Fps   == {"correct", "first-digit", "middle-digit", "last-digit", "sha1-wrong", "sha512-correct",
           "unknown-hash", "unknown-hash-sha256-value", "absent"}
+\* (a second driver adds vectors outside this space: the verifying side is an ORTC stack and the peer a raw DTLS
+\* client that proves possession of its own certificate only and may append the signalled one to its chain:
+\* fingerprint class "foreign-leaf", to be judged like any mismatch)
 Places == {"media", "session", "both"}
 Space == [cert : Certs, fp : Fps, place : Places, verifyOff : BOOLEAN, verifier : {"answerer", "offerer"}]
 
